@@ -11,7 +11,7 @@ PROP = dict(
         "steering link (syntactic, by reading algorithm/kalman/mod.rs:128-230): update_clock builds `candidates` only from sources whose `usable` flag is set (filter_map at 128-137), passes them to select(), passes select()'s result to combine(); steer_offset / steer_frequency (the only callers of step_clock / set_frequency apart from time_update's end-of-slew) are called only inside `if let Some(combined) = combine(&selection, ..)`, and combine() is None iff the selection is empty; used_sources is combine()'s list of the selected sources",
     ],
     bounds="3 candidates (quick) / 4 candidates (thorough) with concrete eligibility patterns {eligible, unsynchronised, periodic, too uncertain} and symbolic geometry: offsets any multiple of 1/16 s in [-8, 8), radii 0, 1/16, 1/8, 1/4 s (from delay and from the statistical term), default weights and limit, any minimum_agreeing_sources; thorough c03_select: 3 candidates with symbolic eligibility (any leap value, periodic flag, radius k in 0..15 s against any non-NaN limit), offsets any whole second in i8. Candidate sets smaller than the bound are covered through unsynchronised candidates (skipped by both passes of select).",
-    outside="more than 4 candidates; arbitrary f64 offsets/delays (with arbitrary doubles the SAT solver does not identify the three copies of the end-point arithmetic: > 10 min for 2 candidates), NaN/infinite inputs, -0.0 ties; the numerical value of sqrt; update_clock end to end (c03_usable of the design: HashMap of sources + Kalman merge + steering does not get through symbolic execution; replaced by the syntactic note above)",
+    outside="more than 4 candidates; arbitrary f64 offsets/delays (with arbitrary doubles the SAT solver does not identify the three copies of the end-point arithmetic: > 10 min for 2 candidates), NaN/infinite inputs, -0.0 ties; the numerical value of sqrt; update_clock end to end (c03_usable of the design: update_clock needs a populated HashMap of sources; inserting two sources with concrete keys was still inside hashbrown's find_or_find_insert_index_inner after 7 min of symbolic execution: measured; replaced by the syntactic note above)",
     assumptions=[
         "finite offsets, delay >= 0, variance >= 0, weights >= 0 (otherwise lo > hi and `cur -= 1` underflows: NaN/negative inputs are C06 territory)",
         "oracle: closed intervals share a point iff some interval's lower end lies in all of them; the code's sweep breaks ties between an upper and a lower end by candidate order and can only under-count (checked direction: non-empty selection => majority exists)",
